@@ -791,6 +791,9 @@ static int handleConfigResponse(KSI_HighAvailabilityService *has, KSI_AsyncServi
 			KSI_Utf8String_free(reqHndl->errMsg);
 			reqHndl->errMsg = NULL;
 		}
+		/* A configuration-only request is answered by this configuration: failures of other endpoints
+		 * from now on are error notices, not the request's own error. */
+		if (haRequest->hasReq == false) reqHndl->state = KSI_ASYNC_STATE_PUSH_CONFIG_RECEIVED;
 	}
 
 	res = KSI_AsyncHandle_getConfig(respHndl, &pushConf);
